@@ -10,7 +10,11 @@
 //   file <name:hex> <hex|absent>
 //   comment <ptt|bbs> <sysop|user> <userid:hex13> <reqname:hex28> <type:0..255> <text:hex> <ip:hex16> <mtime>
 //   begin <id> <comment arguments>   a commenter runs its lookup and is then kept waiting on the article's lock
+//   (begin <id> <inproc|foreign> ...: the lock is held through cmsys like another goroutine of this server, or by
+//    flock alone like another process)
+//   append <name:hex> <bytes:hex>    the holder of the article lock (another process) appends bytes to the article
 //   finish <id>                      ... is let go: it appends and updates the index from its (stale) copy
+//   expire <id>                      ... is kept waiting until its five attempts are used up: it must fail, nothing changes
 //   mark <type>                      CommentType(type).Bytes() (validates the regenerated table)
 //   dump                             whole .DIR and every article file
 //
@@ -33,6 +37,7 @@ import (
 	"sort"
 	"strconv"
 	"strings"
+	"syscall"
 	"time"
 
 	"github.com/Ptt-official-app/go-pttbbs/bbs"
@@ -249,6 +254,8 @@ func errClass(err error) string {
 		return "err:name"
 	case errors.As(err, &pe) && os.IsNotExist(err):
 		return "err:nofile"
+	case err == cmsys.ErrPttLock, errors.Is(err, syscall.EWOULDBLOCK), errors.Is(err, syscall.EAGAIN):
+		return "err:lock" // the article lock was refused in every attempt (in-process table or flock)
 	}
 	return "err:other:" + strings.ReplaceAll(err.Error(), " ", "_")
 }
@@ -623,7 +630,11 @@ func judge(line string, c *call, stale bool, classes []string, dir0 []byte, file
 	case res != "returned":
 		out = res
 		label += ":" + res
-		failf("crash:recommend", "%s in Recommend (%s)", res, hx.LastPanic)
+		if res == "ACCEPTED-WHILE-LOCKED" {
+			failf("append:lock-ignored", "the comment was accepted while another process held the article lock for the whole retry window")
+		} else {
+			failf("crash:recommend", "%s in Recommend (%s)", res, hx.LastPanic)
+		}
 		updateShadow()
 	case err != nil:
 		cls := errClass(err)
@@ -769,6 +780,7 @@ type ticket struct {
 	classes  []string
 	lockFile *os.File
 	lockPath string
+	foreign  bool // the lock is held like another process would: flock only, no entry in this process's lock table
 	target   string
 	done     chan outcome
 }
@@ -787,7 +799,8 @@ func sleepingCommenters() int {
 	n := runtime.Stack(buf, true)
 	cnt := 0
 	for _, g := range strings.Split(string(buf[:n]), "\n\n") {
-		if strings.Contains(g, "ptt.doAddRecommend(") && strings.Contains(g, "time.Sleep(") {
+		// asleep between two attempts, or (an implementation that waits for the lock) blocked in flock
+		if strings.Contains(g, "ptt.doAddRecommend") && (strings.Contains(g, "time.Sleep(") || strings.Contains(g, "syscall.Flock(")) {
 			cnt++
 		}
 	}
@@ -795,12 +808,13 @@ func sleepingCommenters() int {
 }
 
 func doBegin(line string, w []string) {
-	if len(w) != 10 || !haveReset {
+	if len(w) != 11 || !haveReset || (w[2] != "inproc" && w[2] != "foreign") {
 		bad(line)
 		return
 	}
 	id := w[1]
-	c, ok := parseCall(w[2:])
+	foreign := w[2] == "foreign"
+	c, ok := parseCall(w[3:])
 	if !ok || c.via != "ptt" || !reTicket.MatchString(id) || tickets[id] != nil || len(tickets) >= 8 {
 		bad(line)
 		return
@@ -823,10 +837,16 @@ func doBegin(line string, w []string) {
 			if err != nil {
 				fatal("begin: open %s: %v", t.lockPath, err)
 			}
-			if err := cmsys.GoFlockExNb(f.Fd(), t.lockPath); err != nil {
+			if foreign {
+				// like another server process (mbbsd): the kernel lock only
+				if err := syscall.Flock(int(f.Fd()), syscall.LOCK_EX|syscall.LOCK_NB); err != nil {
+					fatal("begin: flock %s: %v", t.lockPath, err)
+				}
+			} else if err := cmsys.GoFlockExNb(f.Fd(), t.lockPath); err != nil {
 				fatal("begin: lock %s: %v", t.lockPath, err)
 			}
 			t.lockFile = f
+			t.foreign = foreign
 		}
 	}
 	ptttype.EDITPOST_SMARTMERGE = true // the waiting commenter must take the branch that locks
@@ -865,6 +885,58 @@ func doBegin(line string, w []string) {
 
 var errPanic = errors.New("panic")
 
+func (t *ticket) release() {
+	if t.lockFile == nil {
+		return
+	}
+	if t.foreign {
+		_ = syscall.Flock(int(t.lockFile.Fd()), syscall.LOCK_UN)
+	} else {
+		_ = cmsys.GoFunlock(t.lockFile.Fd(), t.lockPath)
+	}
+	t.lockFile.Close()
+	t.lockFile = nil
+}
+
+// doAppend: another holder of the article lock (another process) appends bytes to an article.
+func doAppend(line string, w []string) {
+	if len(w) != 3 || !haveReset {
+		bad(line)
+		return
+	}
+	n, ok1 := parseHex(w[1])
+	bs, ok2 := parseHex(w[2])
+	if !ok1 || !ok2 || !safeName(n) || len(bs) == 0 || len(bs) > 4096 {
+		bad(line)
+		return
+	}
+	if _, exists := rawFiles[string(n)]; !exists {
+		bad(line)
+		return
+	}
+	var f *os.File
+	for _, t := range tickets {
+		if t.target == string(n) && t.lockFile != nil {
+			f = t.lockFile // the holder writes through the descriptor it holds the lock with
+		}
+	}
+	if f == nil {
+		var err error
+		f, err = os.OpenFile(filepath.Join(boardDir, string(n)), os.O_APPEND|os.O_WRONLY, 0o644)
+		if err != nil {
+			fatal("append: %v", err)
+		}
+		defer f.Close()
+	}
+	if _, err := f.Write(bs); err != nil {
+		fatal("append: %v", err)
+	}
+	rawFiles[string(n)] = append(append([]byte{}, rawFiles[string(n)]...), bs...)
+	shadow[string(n)] = append(append([]byte{}, shadow[string(n)]...), bs...)
+	run.Op(line, "ok "+stateStr(readDir()), "holder-append", false)
+}
+
+// doFinish: `finish <id>` lets the held commenter go; `expire <id>` keeps the lock until it has given up.
 func doFinish(line string, w []string) {
 	if len(w) != 2 || !haveReset || tickets[w[1]] == nil {
 		bad(line)
@@ -875,9 +947,9 @@ func doFinish(line string, w []string) {
 	dir0 := readDir()
 	files0 := readFiles()
 	t0 := time.Now().Unix()
-	if t.lockFile != nil {
-		_ = cmsys.GoFunlock(t.lockFile.Fd(), t.lockPath)
-		t.lockFile.Close()
+	expire := w[0] == "expire"
+	if !expire {
+		t.release()
 	}
 	var o outcome
 	res := "returned"
@@ -888,6 +960,13 @@ func doFinish(line string, w []string) {
 		}
 	case <-time.After(8 * time.Second):
 		res = "TIMEOUT"
+	}
+	if expire {
+		// the holder kept the lock for the whole retry window of the commenter
+		t.release()
+		if res == "returned" && o.err == nil {
+			res = "ACCEPTED-WHILE-LOCKED"
+		}
 	}
 	t1 := time.Now().Unix()
 	if len(tickets) == 0 {
@@ -959,8 +1038,10 @@ func execLine(line string) {
 		doComment(line, w)
 	case "begin":
 		doBegin(line, w)
-	case "finish":
+	case "finish", "expire":
 		doFinish(line, w)
+	case "append":
+		doAppend(line, w)
 	case "mark":
 		doMark(line, w)
 	case "dump":
